@@ -43,7 +43,12 @@ func c12Total(s *world.Snap) *big.Int {
 }
 
 func newC12Mon(h *lockHist) *c12Mon {
-	return &c12Mon{h: h, genesisTotal: c12Total(h.post), grantsIn: new(big.Int), gasIn: new(big.Int), delivered: new(big.Int), queuedClaims: map[uint64][2]*big.Int{}}
+	m := &c12Mon{h: h, genesisTotal: c12Total(h.post), grantsIn: new(big.Int), gasIn: new(big.Int), delivered: new(big.Int), queuedClaims: map[uint64][2]*big.Int{}}
+	// a chain that starts from an exported state may already have claims queued for payout
+	for _, r := range h.post.Locking.EthTxQueue.Rewards {
+		m.queuedClaims[r.Id] = [2]*big.Int{bi(r.Goat), bi(r.Gas)}
+	}
+	return m
 }
 
 func (m *c12Mon) viol(sig, detail string) {
@@ -142,7 +147,7 @@ func (m *c12Mon) afterBlock() {
 	prePool := pre.Locking.RewardPool
 	// distribution of the previous pools among the previous block's validators
 	goatDust, gasDust := bi(prePool.Goat), bi(prePool.Gas)
-	if H >= 2 {
+	if H >= 2 && len(blk.Req.DecidedLastCommit.Votes) > 0 {
 		votes := blk.Req.DecidedLastCommit.Votes
 		var P int64
 		for _, v := range votes {
